@@ -202,6 +202,9 @@ func runC14(c *CaseCtx) (res CaseResult) {
 	if c.Idx%16 == 0 {
 		return runC14Static(c, r)
 	}
+	if c.Idx%50 == 7 {
+		return runC14SameNamedTypes(c, r)
+	}
 	names := []string{"alpha", "beta", "gamma", "delta", "x"}
 	subs := []string{"s", "t9", "a+b", "k=v", "v1.2/x"}
 	list := func(n int, form int) []xLabel {
